@@ -155,7 +155,7 @@ def a5(ctx, rep):
                 continue
             rep.add("A5", "unguarded:" + key, False, s.where,
                     "no dominating guard establishes %s (facts in scope: %s)" % ("; ".join(unproved), [f[2] for f in here][:6]))
-    rep.floor("A5", "untrusted-slice-access-sites", nsites, 25)
+    rep.floor("A5", "untrusted-slice-access-sites", nsites, 12)
     rep.stats["lin"] = {"sites": nsites, "per_function": per_fn}
 
 
